@@ -83,14 +83,18 @@ def _m_matchingString(c, i):
     return c
 
 
+def _m_qualname(o):
+    return (getattr(o, "__module__", "") + "." if getattr(o, "__module__", None) else "") + getattr(o, "__qualname__", repr(o))
+
+
 COMPAT = {"iterbytes": _m_iterbytes, "networkString": _m_networkString, "nativeString": _m_nativeString,
-          "_matchingString": _m_matchingString}
+          "_matchingString": _m_matchingString, "fullyQualifiedName": _m_qualname, "qual": _m_qualname}
 
 _BUILTINS = {"len": len, "chr": chr, "ord": ord, "bytes": bytes, "bytearray": bytearray, "range": range,
              "frozenset": frozenset, "set": set, "tuple": tuple, "list": list, "dict": dict, "str": str, "int": int,
              "min": min, "max": max, "sorted": sorted, "abs": abs, "bool": bool, "enumerate": enumerate, "zip": zip,
              "reversed": reversed, "divmod": divmod, "hex": hex, "isinstance": isinstance, "repr": repr, "sum": sum,
-             "any": any, "all": all, "float": float, "iter": iter, "next": next, "type": type, "filter": filter, "memoryview": memoryview}
+             "any": any, "all": all, "float": float, "iter": iter, "next": next, "type": type, "filter": filter, "memoryview": memoryview, "object": object}
 _TYPE_NAMES = {"bytes": bytes, "str": str, "int": int, "list": list, "tuple": tuple, "float": float, "bytearray": bytearray,
                "dict": dict, "set": set}
 _PURE_METHODS = {"startswith", "endswith", "replace", "strip", "lstrip", "rstrip", "find", "rfind", "index", "count", "join",
@@ -505,15 +509,33 @@ class FollowModule(dict):
                 return st
         return None
 
+    def _const(self, name):
+        """a module-level ``name = <expr>`` that the plain module environment could not evaluate (e.g. a table of module functions)"""
+        if not isinstance(name, str) or "." in name or name in self._env0 or name in self._busy:
+            return None
+        try:
+            return self._mod.module_assign(name)
+        except Exception:
+            return None
+
     def __contains__(self, name):
-        return dict.__contains__(self, name) or self._func(name) is not None
+        return dict.__contains__(self, name) or self._func(name) is not None or self._const(name) is not None
 
     def __getitem__(self, name):
         if dict.__contains__(self, name):
             return dict.__getitem__(self, name)
         f = self._func(name)
         if f is None:
-            raise KeyError(name)
+            v = self._const(name)
+            if v is None:
+                raise KeyError(name)
+            self._busy.add(name)
+            try:
+                val = peval(v, dict(self._env0), self)
+            finally:
+                self._busy.discard(name)
+            dict.__setitem__(self, name, val)
+            return val
         fn = interp(f, self, self._env0)
         dict.__setitem__(self, name, fn)
         return fn
